@@ -46,6 +46,18 @@ def print_twin(rng, rows):
 RENAMES = ["b", "h", "k", "m", "q", "t", "y"]
 
 
+def first_coefficient_twin(raw):
+    """the same variables, the same LAST coefficient and the same bound, another first coefficient: x + y <= 2 and 3x + y <= 2 are different
+    constraints however their coefficients are walked through"""
+    co, c = raw
+    if len(co) < 2:
+        return None
+    ks = list(co)
+    out = dict(co)
+    out[ks[0]] = co[ks[0]] + (2 if co[ks[0]] > 0 else -2)
+    return out, c
+
+
 def weakened(raw, d):
     co, c = raw
     return (dict(co), c + d)
@@ -75,7 +87,10 @@ def viewpoint_pair(rng, shape, dyadic=0.0):
             if cands and rng.random() < 0.5:
                 r = rng.choice(cands)
                 how = rng.random()
-                if how >= 0.8:
+                tw = first_coefficient_twin(r)
+                if tw and how < 0.15:
+                    dst[part].append(tw)
+                elif how >= 0.8:
                     base, twin = near_twin(rng, r)
                     src[part][src[part].index(r)] = base
                     dst[part].append(twin)
